@@ -63,9 +63,11 @@ def main(tier):
     cases += [chr(cp) for cp in range(0x110000) if not 0xD800 <= cp <= 0xDFFF]       # every code point, singly
     for cp in (0xFEFF, 0x200B, 0x2028, 0x00A0, 0x0085, 0x3000, 0xFFFD, 0x10FFFF, 0x7F, 0x00):   # and at token boundaries
         cases += [chr(cp) + '\\x{a}', '{' + chr(cp) + '}', 'a' + chr(cp), '$' + chr(cp) + '$']
+    WS = ['\r', '\n', '\t', ' ', 'a', '\\', '{', '%']       # line ends and blanks of every kind next to each other
+    cases += [''.join(t) for n in range(2, 5 if tier == 'quick' else 7) for t in itertools.product(WS, repeat=n)]
     S2 = ['\\left', '\\big', '\\right', '\\Bigg', ' ', '\t', '(', '[', '|', '.', 'x', '\\', '{', '\n', '\\langle']
     cases += [''.join(t) for n in range(2, 4 if tier == 'quick' else 5) for t in itertools.product(S2, repeat=n)]
-    words = SIGMA + ['\\begin{a}', '\\end{a}', '\\left(', '\\big|', '\\item', '\\x', '$$', '\\[', '\\]', '%c\n', '\\%', '\\\\', 'é', '😂']
+    words = SIGMA + ['\\begin{a}', '\\end{a}', '\\left(', '\\big|', '\\item', '\\x', '$$', '\\[', '\\]', '%c\n', '\\%', '\\\\', 'é', '😂', '\r\n', '\r', '\t']
     for _ in range(300 if tier == 'quick' else 5000):
         cases.append(''.join(rnd.choice(words) for _ in range(rnd.randrange(5, 30))))
     for s, r in zip(cases, pmap(check, cases)):
